@@ -58,4 +58,7 @@ def unitsBlock (l : List (String × String)) : List (Kind × String) :=
 def loadEntryLive (units : List (Kind × String)) (v : YVal) : Except LoadErr Loaded :=
   loadEntry unitTable gasR kelvin units v
 
+def loadPropertySetsLive (units : List (Kind × String)) (v : YVal) : Except LoadErr (Option Loaded) :=
+  loadPropertySets unitTable gasR kelvin units v
+
 end PGA.Yaml
